@@ -349,3 +349,131 @@ Proof.
   - destruct (Hdef Hb eq_refl Hc) as [-> _]. unfold forced, force_threads in Hf. rewrite Hc in Hf. cbn in Hf.
     rewrite !andb_true_r in Hf. rewrite Hf. reflexivity.
 Qed.
+
+(* ---------------------------------------------------------------- statements of Props/C17.v (the file Props/C17.v only restates them and closes each with `exact`) *)
+Definition spec_empty : cspec :=
+  {| s_backend := None; s_njobs := None; s_verbose := None; s_temp := None; s_maxnb := None; s_mmap := None;
+     s_prefer := None; s_require := None |}.
+
+Definition args_empty : pargs :=
+  {| a_njobs := None; a_backend := None; a_verbose := None; a_temp := None; a_maxnb := None; a_mmap := None;
+     a_prefer := None; a_require := None |}.
+
+Definition F16_spec : cspec :=
+  {| s_backend := None; s_njobs := Some (Some 2); s_verbose := None; s_temp := None; s_maxnb := None; s_mmap := None;
+     s_prefer := None; s_require := None |}.
+
+Definition F16_args : pargs :=
+  {| a_njobs := None; a_backend := None; a_verbose := None; a_temp := None; a_maxnb := None; a_mmap := None;
+     a_prefer := Some 1; a_require := None |}.
+
+Definition F17_spec : cspec :=
+  {| s_backend := None; s_njobs := None; s_verbose := None; s_temp := None; s_maxnb := None; s_mmap := None;
+     s_prefer := None; s_require := Some 1 |}.
+
+Definition F17_args : pargs :=
+  {| a_njobs := Some (Some 2); a_backend := Some (BInst BLoky None); a_verbose := None; a_temp := None; a_maxnb := None;
+     a_mmap := None; a_prefer := None; a_require := None |}.
+
+Lemma C17_translation_matches_model_holds : forall (V : Type) (param ctxv : option V) (dflt : V),
+  get_config_param param ctxv dflt = Ok (gcp param ctxv dflt) /\
+  gcp param ctxv dflt = match param with Some v => v | None => match ctxv with Some v => v | None => dflt end end.
+Proof. intros. split; [apply gen_gcp_eq | reflexivity]. Qed.
+
+Lemma C17_thread_local_holds :
+  (forall g t u, u <> t -> gstep g t u = g u) /\
+  (forall sched g t, grun sched g t = iter (count_tid t sched) (g t)).
+Proof. split; [exact gstep_other | exact grun_local]. Qed.
+
+Lemma C17_reachable_config_holds : forall sched g t p,
+  g t = start default_config p ->
+  stack_inv default_config (t_stack (grun sched g t)) (t_cur (grun sched g t)).
+Proof. intros. exact (reachable_inv sched g t default_config p H). Qed.
+
+Lemma C17_priority_holds : forall k cur a r,
+  stack_inv default_config k cur -> parallel_init a cur = Ok r ->
+  let sp := specs_of k in
+  r_verbose r = prio (a_verbose a) s_verbose sp d_verbose /\
+  r_kw_verbose r = Z.max 0 (prio (a_verbose a) s_verbose sp d_verbose - 50) /\
+  r_kw_temp r = prio (a_temp a) s_temp sp d_temp /\
+  r_kw_mmap r = prio (a_mmap a) s_mmap sp d_mmap /\
+  r_kw_prefer r = prio (a_prefer a) s_prefer sp d_prefer /\
+  r_kw_require r = prio (a_require a) s_require sp d_require /\
+  conv_maxnb (prio (a_maxnb a) s_maxnb sp d_maxnb) = Ok (r_kw_maxnb r) /\
+  (forall n, njobs_arg a = Some n -> r_njobs r = n) /\
+  (njobs_arg a = None -> forced a cur = false ->
+     r_njobs r = match innermost s_njobs sp with Some (Some n) => n | _ => 1 end) /\
+  (forall kd l, a_backend a = Some (BInst kd l) -> r_kind r = kd) /\
+  (a_backend a = None -> forced a cur = false ->
+     r_kind r = match innermost spec_kind sp with Some kd => kd | None => BLoky end).
+Proof.
+  intros k cur a r Hinv H. cbn zeta.
+  destruct (inv_all_fields k cur Hinv) as (Hn & Hv & Ht & Hm & Hmm & Hp & Hr & Hb).
+  destruct (parallel_init_inv a cur r H) as
+    (Pv & Pkv & Pt & Pmm & Pp & Pr & Pm & _ & _ & Pn1 & Pn2 & _ & Pb1 & _ & _ & Pb3 & Pb4 & _).
+  unfold res_prefer, res_require in *. rewrite Hv in Pv. rewrite Ht in Pt. rewrite Hmm in Pmm. rewrite Hp in Pp.
+  rewrite Hr in Pr. rewrite Hm in Pm. rewrite Hn in Pn2. rewrite Pv in Pkv.
+  repeat (split; [assumption|]).
+  intros Ha Hf. rewrite <- Hb. destruct (c_backend cur) as [b|] eqn:Eb; cbn [option_map].
+  - exact (proj1 (Pb3 Ha Hf b eq_refl)).
+  - exact (proj1 (Pb4 Ha Hf eq_refl)).
+Qed.
+
+Lemma C17_priority_forced_fallback_holds : forall cur a r,
+  parallel_init a cur = Ok r -> forced a cur = true ->
+  (njobs_arg a = None -> r_njobs r = 1) /\ (a_backend a = None -> r_kind r = BThr).
+Proof.
+  intros cur a r H Hf.
+  destruct (parallel_init_inv a cur r H) as (_ & _ & _ & _ & _ & _ & _ & _ & _ & _ & _ & Pn3 & _ & _ & Pb2 & _).
+  split; intros; auto.
+Qed.
+
+Lemma C17_priority_njobs_refuted_holds : exists k cur a r,
+  stack_inv default_config k cur /\ parallel_init a cur = Ok r /\
+  njobs_arg a = None /\ a_backend a = None /\ innermost spec_kind (specs_of k) = None /\
+  innermost s_njobs (specs_of k) = Some (Some 2) /\ r_njobs r = 1.
+Proof.
+  eexists [FWith default_config F16_spec], _, F16_args, _.
+  split; [split; [vm_compute; reflexivity|reflexivity]|]. split; [vm_compute; reflexivity|].
+  repeat split.
+Qed.
+
+Lemma C17_sharedmem_holds : forall a c r, parallel_init a c = Ok r ->
+  (a_require a = Some 1 -> supports_sharedmem (r_kind r) = true) /\
+  (res_require a c = 1 -> a_backend a = None -> supports_sharedmem (r_kind r) = true).
+Proof.
+  intros a c r H. split.
+  - destruct (parallel_init_inv a c r H) as (_ & _ & _ & _ & _ & _ & _ & _ & _ & _ & _ & _ & _ & _ & _ & _ & _ & Hs).
+    exact Hs.
+  - exact (sharedmem_resolved a c r H).
+Qed.
+
+Lemma C17_sharedmem_context_refuted_holds : exists k cur a r,
+  stack_inv default_config k cur /\ parallel_init a cur = Ok r /\
+  r_kw_require r = 1 /\ supports_sharedmem (r_kind r) = false.
+Proof.
+  eexists [FWith default_config F17_spec], _, F17_args, _.
+  split; [split; [vm_compute; reflexivity|reflexivity]|]. split; [vm_compute; reflexivity|]. split; reflexivity.
+Qed.
+
+Lemma C17_prefer_hint_holds : forall a c r, parallel_init a c = Ok r ->
+  (forall kd l, a_backend a = Some (BInst kd l) -> r_kind r = kd) /\
+  (forall b, a_backend a = None -> c_backend c = Some b -> res_require a c <> 1 ->
+     r_kind r = ck b /\ r_level r = clevel b) /\
+  (a_backend a = None -> c_backend c = None ->
+     r_kind r = if (res_require a c =? 1) || (res_prefer a c =? 1) then BThr else BLoky).
+Proof.
+  intros a c r H. split; [|split].
+  - destruct (parallel_init_inv a c r H) as (_ & _ & _ & _ & _ & _ & _ & _ & _ & _ & _ & _ & Hb & _). exact Hb.
+  - intros b Hb Hc Hr. exact (prefer_hint_ctx a c r b H Hb Hc Hr).
+  - exact (backend_from_hints a c r H).
+Qed.
+
+Lemma C17_invalid_rejected_holds : forall a c r, parallel_init a c = Ok r ->
+  valid_prefer (res_prefer a c) = true /\ valid_require (res_require a c) = true /\
+  a_backend a <> Some BInvalid.
+Proof.
+  intros a c r H.
+  destruct (parallel_init_inv a c r H) as (_ & _ & _ & _ & _ & _ & _ & Vp & Vr & _ & _ & _ & _ & Hb & _).
+  auto.
+Qed.
